@@ -450,7 +450,11 @@ def _run_pair(case, ctx):
                     clause = "both-vs-formula"
             fk = dict(fk0, clause=clause, input=cls)
             if cls == "mono-invalid":
+                # one finding key whatever else the program contains
                 fk["feature"] = "valid"
+                fk.pop("family")
+            elif feats.get("novolfn"):
+                fk["feature"] = "no-volume-parameter-" + feats["novolfn"]
                 fk.pop("family")
             detail = desc + "\n" + "\n".join("  %-3s flavour: %s" % (t, m) for t, m in sorted(bad.items()))
             good = [t for t in tags if t not in bad]
